@@ -435,3 +435,54 @@ def features(src: str) -> set[str]:
 
 def size_of(src: str) -> int:
     return src.count("\n")
+
+
+# --------------------------------------------------------------------------
+# fixed families of programs with sizes / counts that random drawing does not reach
+
+
+def template_programs():
+    """(label, source): loops with k distinct exits, k-arm elif chains, k-operand and/or chains, k levels of loop
+    nesting with break / continue / else at every level, k consecutive early returns; all decisions tape-driven."""
+    out = []
+    tag = [100]
+
+    def t():
+        tag[0] += 1
+        return tag[0]
+
+    for k in (3, 5, 8, 9, 10, 13):
+        body = "".join(f"        if d({t()}):\n            return e({t()}, {i})\n" for i in range(k))
+        out.append((f"while-{k}-returns", f"def f(a, b):\n    x = 0\n    while d({t()}):\n        x += 1\n{body}        e({t()}, x)\n    return x\n"))
+        body = "".join(f"        if d({t()}):\n            x = {i}\n            break\n" for i in range(k))
+        out.append((f"for-{k}-breaks-else", f"def f(a, b):\n    x = -1\n    for i0 in it({t()}):\n{body}        e({t()}, i0)\n    else:\n        x = e({t()}, 99)\n    return x\n"))
+        arms = "".join(f"    elif d({t()}):\n        x = e({t()}, {i})\n" for i in range(k))
+        out.append((f"elif-{k}", f"def f(a, b):\n    x = 0\n    if d({t()}):\n        x = e({t()}, -1)\n{arms}    else:\n        x = e({t()}, -2)\n    return x\n"))
+        for op in ("and", "or"):
+            chain = f" {op} ".join(f"d({t()})" for _ in range(k))
+            out.append((f"{op}-chain-{k}", f"def f(a, b):\n    x = {chain}\n    if {chain}:\n        return e({t()}, x)\n    return x\n"))
+        rets = "".join(f"    if d({t()}):\n        return e({t()}, {i})\n" for i in range(k))
+        out.append((f"early-returns-{k}", f"def f(a, b):\n{rets}    return e({t()}, -1)\n"))
+    for k in (3, 5, 7):
+        lines = ["def f(a, b):", "    x = 0"]
+        for lvl in range(k):
+            ind = "    " * (lvl + 1)
+            lines.append(f"{ind}while d({t()}):")
+            lines.append(f"{ind}    x += 1")
+            lines.append(f"{ind}    if d({t()}):")
+            lines.append(f"{ind}        continue")
+            lines.append(f"{ind}    if d({t()}):")
+            lines.append(f"{ind}        break")
+        ind = "    " * (k + 1)
+        lines.append(f"{ind}e({t()}, x)")
+        for lvl in range(k - 1, -1, -1):
+            ind = "    " * (lvl + 1)
+            lines.append(f"{ind}else:")
+            lines.append(f"{ind}    x = e({t()}, {lvl})")
+            if lvl % 2 and lvl > 0:
+                lines.append(f"{ind}    break")
+        lines.append("    return x")
+        out.append((f"nested-while-{k}", "\n".join(lines) + "\n"))
+    out.append(("while-true-nested-else-break", f"def f(a, b):\n    x = 0\n    while True:\n        x += 1\n        for i0 in it({t()}):\n            if d({t()}):\n                return x\n        else:\n            if d({t()}):\n                break\n    return e({t()}, x)\n"))
+    out.append(("while-1-only-inner-exit", f"def f(a, b):\n    x = 0\n    while 1:\n        x += 1\n        while d({t()}):\n            e({t()}, x)\n        else:\n            break\n"))
+    return out
